@@ -13,8 +13,9 @@ import TmcgProofs.DkgLagrange
                                     g^x = ∏_j g^{f_j(0)} = y
     * `vssRecv1_honest_dealer`      an honest dealer's messages raise no complaint (step level)
     * `genCheck4_ok_of_honest`      the same for step 1(b) of the key generation
-  Stated, open (`sorry`, see the notes at each statement): the global agreement theorems
-  `qual_agree`, `honest_in_qual`, `key_agree`, `dealer_inconsistent_caught`.
+  The global agreement theorems `qual_agree'`, `honest_in_qual'` are in TmcgProofs/DkgAgree.lean;
+  the step-function layer of the key generation in TmcgProofs/DkgSteps.lean; the signing algebra in
+  TmcgProofs/DkgSign.lean.  Open: `key_agree` (needs a binding hypothesis, see the notes below).
 -/
 namespace Tmcg.DkgP
 open Tmcg Tmcg.Powm Tmcg.Dkg Tmcg.Grp Tmcg.DkgL
@@ -488,7 +489,7 @@ theorem vssDealCollect_spec (st : VssSt) (I : Inbox) (hsfb : st.sfb = false) :
     have := pl_vssAnswers_ops G.q st hsfb cf st []
     simpa using this
 
-/-! ### global statements (open)
+/-! ### global statements
 
   Notation: `R := runGen G n t ins`, party `i` is honest when `(ins[i]).dev1.honest`; at most `t`
   parties are not honest and `2 t < n`.
@@ -522,22 +523,10 @@ def honestIdx (ins : List PartyIn) : List Nat :=
 def goodCoins (G : Dkg.Grp) (t : Nat) (pin : PartyIn) : Prop :=
   2 * (t + 1) ≤ pin.strong.length ∧ ∀ c ∈ pin.strong, 0 ≤ c ∧ c < G.q
 
-/-- all honest parties compute the same set QUAL (for ALL scripts of the other parties) -/
-theorem qual_agree (hG : ValidGrp G) (n t : Nat) (ins : List PartyIn) (hn : ins.length = n) (ht : 2 * t < n)
-    (hf : n - (honestIdx ins).length ≤ t)
-    (hc : ∀ i ∈ honestIdx ins, goodCoins G t (ins.getD i ⟨[], [], {}, {}⟩))
-    (i j : Nat) (hi : i ∈ honestIdx ins) (hj : j ∈ honestIdx ins) (Pi Pj : Party GenSt)
-    (hPi : (runGen G n t ins)[i]? = some Pi) (hPj : (runGen G n t ins)[j]? = some Pj) :
-    Pi.st.qual = Pj.st.qual := by
-  sorry
-
-/-- honest parties are never disqualified -/
-theorem honest_in_qual (hG : ValidGrp G) (n t : Nat) (ins : List PartyIn) (hn : ins.length = n) (ht : 2 * t < n)
-    (hf : n - (honestIdx ins).length ≤ t)
-    (hc : ∀ i ∈ honestIdx ins, goodCoins G t (ins.getD i ⟨[], [], {}, {}⟩))
-    (i j : Nat) (hi : i ∈ honestIdx ins) (hj : j ∈ honestIdx ins) (Pi : Party GenSt)
-    (hPi : (runGen G n t ins)[i]? = some Pi) :
-    j ∈ Pi.st.qual := by
-  sorry
+/- The global agreement theorems are proved in TmcgProofs/DkgAgree.lean (which imports this file):
+     `qual_agree'`      all honest parties compute the same set QUAL, for ALL scripts of the others
+     `honest_in_qual'`  honest parties are never disqualified
+   both under `n < 2 ^ 64` (the code reads party indices with `mpz_get_ui`; without the bound the end
+   marker `n` is read as an index: `qual_agree_unbounded_false`, `honest_in_qual_unbounded_false`). -/
 
 end Tmcg.DkgP
